@@ -59,6 +59,13 @@ def run(R):
         cp = R.path("c10", "corpus-%d.ndjson" % i)
         jobs.append(([cexe, str(R.seed), cp] + ([] if thorough else ["quick"]), env, (0, 70)))
         corp[i] = cp
+    # Argon2 over 4 GiB + 16 MiB in the four fill-segment backends (AVX-512F, AVX2, SSSE3, reference): 4.1 GiB each, alongside the rest
+    bigm = []
+    for i, (variant, name, env) in enumerate(cfgs):
+        if variant == "native" and name in ("full", "-avx512f", "-avx2", "-ssse3"):
+            bp = R.path("c10", "bigmem-%d.ndjson" % i)
+            jobs.append(([R.cc("corpus_driver", ["corpus_driver.c"], variant, extra=["-Wno-deprecated-declarations"]), str(R.seed), bp, "bigmem2" if thorough else "bigmem"], env, (0, 70)))
+            bigm.append((i, variant, name, bp))
     from concurrent.futures import ThreadPoolExecutor
     with ThreadPoolExecutor(max_workers=vlib.NCPU) as ex:
         list(ex.map(lambda j: R.run(j[0], env=j[1], ok_codes=j[2], timeout=3000), jobs))
@@ -114,6 +121,23 @@ def run(R):
         if missing and not crashed:
             R.violation("configuration %s %s produced no result for %d corpus cases, e.g. %s" % (variant, name, len(missing), sorted(missing)[:3]), {"variant": variant, "env": env}, name="missing")
         p = R.path("c10", "rel-%d.ndjson" % i)
+        vlib.write_ndjson(p, recs)
+        files.append(p)
+        ncalls += len(recs)
+    bref = {(x["fn"], x["case"]): x for x in vlib.read_ndjson(bigm[0][3])}
+    if len(bref) < 1 or any(x["ret"] != 0 for x in bref.values()):
+        R.notes.append("4 GiB Argon2 runs could not allocate here: %s" % sorted((k, v["ret"]) for k, v in bref.items()))
+    for (i, variant, name, bp) in bigm[1:]:
+        recs = []
+        for x in vlib.read_ndjson(bp):
+            rf = bref.get((x["fn"], x["case"]))
+            if rf is None:
+                raise vlib.MachineryError("bigmem case %s missing in the reference configuration" % x["fn"])
+            recs.append({"fn": x["fn"], "case": x["case"], "cfg": "%s/%s" % (variant, name), "dig": x["dig"], "ret": x["ret"], "olen": x["olen"],
+                         "ref_dig": rf["dig"], "ref_ret": rf["ret"], "ref_olen": rf["olen"]})
+        if len(recs) != len(bref):
+            R.violation("configuration %s %s produced %d of %d results for the 4 GiB Argon2 cases" % (variant, name, len(recs), len(bref)), {"variant": variant, "name": name}, name="missing")
+        p = R.path("c10", "rel-bigmem-%d.ndjson" % i)
         vlib.write_ndjson(p, recs)
         files.append(p)
         ncalls += len(recs)
